@@ -1,10 +1,13 @@
 ID = "C20"
 TESTS = [
     T("nfs40sim", "TestC20NFS40ByteRangeLocks",
-      {"checks": 2500, "shards": 2, "timeout": 300},
+      {"checks": 3000, "shards": 2, "timeout": 300},
       {"checks": 20000, "shards": 16, "timeout": 1500}),
+    T("nfs40sim", "TestC20NFS40Regress.*",
+      {"checks": 1, "shards": 1, "timeout": 120},
+      {"checks": 1, "shards": 1, "timeout": 120}, plain=True),
 ]
 ASSUMPTIONS = [
     "NFSv4.0 locks: the single byte at offset 2^64-1 is not representable by the lock table (exclusive end 2^64-1 means 'to end of file'); ranges never start there and the model ignores that byte",
-    "NFSv4.0 locks: a lock-owner is used with at most one open (open-owner) per file in LOCK requests (excluded inputs are counted); LOCKT may name any owner",
+    "NFSv4.0 locks: the lock table is keyed by lock-owner only, so when one lock-owner has lock state on a file through the opens of two open-owners, CLOSE (or expiry) of one of these opens frees all bytes of that lock-owner on the file (semantics of the fix db7d309, same as the NFSv4.1 program)",
 ]
